@@ -14,6 +14,13 @@ if ! cargo build --release >/verif/target/build.log 2>&1; then
   echo "HARNESS ERROR: build failed"; exit 2
 fi
 if [ "$1" = "replay" ]; then
+  if grep -q '"profile": "fast"' "$2" 2>/dev/null; then cargo build --profile fast >>/verif/target/build.log 2>&1; fi
   exec /verif/target/release/cfbsim replay "$2"
+fi
+if [ "${2:-${VERIF_TIER:-quick}}" = "thorough" ]; then
+  # second build without debug assertions / overflow checks for the thorough tier's extra batch
+  if ! cargo build --profile fast >>/verif/target/build.log 2>&1; then
+    tail -30 /verif/target/build.log; echo "HARNESS ERROR: build (fast profile) failed"; exit 2
+  fi
 fi
 exec /verif/target/release/cfbsim run --check "$1" --tier "${2:-${VERIF_TIER:-quick}}"
